@@ -254,6 +254,13 @@ def _direct(ai):
             world = e1.commit(world, first)
         act = dict(act, q=f"{world[act['src']].volume!r} {vu}")
     env.clear_caches(pp)
+    if act['op'] == 'fill_to' and act.get('solvent') == 'dmso' and 'dmso_x' in subs:
+        # what a text states does not depend on texts written before: a vessel is first filled with the TWIN of the filler (same
+        # name, other density and molar mass), to the same target - part of the judged and replayed case
+        try:
+            pp.Container('scratch', 'inf L').fill_to(subs['dmso_x'], act['q'])
+        except Exception:  # noqa
+            pass
     obs = e1.apply(pp, subs, world, act)
     if not obs['ok']:
         return [], 0, ('refused', act['op'])
